@@ -115,27 +115,45 @@ def check_start_path(ctx, prog):
 
 def check_allocators(ctx, prog):
     """helpers with their own heap discipline, each on all paths"""
-    # strv_concat: structural partial-failure discipline (element loop cannot be expressed by tokens)
+    # strv_concat on concrete-shape arrays (2 + 1 entries), loops unrolled exactly: on every path (allocation k failing for every
+    # k) the copies made so far and the array are freed exactly once; on success all four blocks belong to the result
     F = prog.fn("strv_concat")
     I = new_interp(prog)
-    res = I.run(F)
+    I.widen = False
+    p = {x["name"]: ("v", F.gdid(x["did"])) for x in F.params}
+    A_, B_ = ("g", "array_a"), ("g", "array_b")
+    st = State()
+    st.mem[p["a"]] = fs(("addr", ("i", A_, 0)))
+    st.mem[p["b"]] = fs(("addr", ("i", B_, 0)))
+    for i in range(2):
+        st.mem[("i", A_, i)] = fs(("str", "a%d" % i))
+    st.mem[("i", A_, 2)] = fs("NULL")
+    st.mem[("i", B_, 0)] = fs(("str", "b0"))
+    st.mem[("i", B_, 1)] = fs("NULL")
+    res = I.run(F, [st])
     ctx.stats("E-ABS", I.stats)
-    for st, rv in res.exits:
-        site, node = ret_site(F, st)
-        arr = [k for k, v in st.res.items() if k[0] == "mem" and k[1].startswith("strv_concat") and v[0] == "live"]
+    events_clean(ctx, res, "strv_concat")
+    seen = set()
+    for s, rv in res.exits:
+        live = [k for k, v in s.res.items() if k[0] == "mem" and v[0] in ("live", "maybe-freed")]
+        key = (show(rv)[:20], len(live), s.mon.get("failed"))
+        if key in seen:
+            continue
+        seen.add(key)
         if rv == fs("NULL"):
-            ctx.ob("C05.O3s", site + " [strv_concat fails]", "on failure the array itself has been freed", not arr,
-                   {"live": [str(x) for x in arr]}, nontrivial=True)
+            ctx.ob("C05.O3s", "strv_concat [fails at %s]" % (s.mon.get("failed") or "?"), "when an allocation fails part way, every copy "
+                   "made so far and the array itself have been freed", not live, {"still_allocated": [str(x) for x in live]}, nontrivial=True)
         else:
-            ctx.ob("C05.O3s", site + " [strv_concat ok]", "on success the array is returned to the caller", len(arr) == 1 and rv == fs(arr[0]),
-                   {"returns": show(rv)}, nontrivial=True)
-    # the element cleanup: in the failure arm every element is freed before the array (loop calling free(*i) over r)
-    frees = [n for n in F.calls("free")]
-    loops = [n for n in frees if enclosing_loops(F, n)]
-    via_helper = [n for n in F.calls("strv_free")]
-    ctx.ob("C05.O3s", "strv_concat: element cleanup", "the failure arm frees every element in a loop over the (zero terminated) "
-           "array before freeing the array (directly, or through strv_free)", (len(loops) >= 1 and len(frees) >= 2) or len(via_helper) >= 1,
-           {"free_calls": [expr_str(x) for x in frees + via_helper]})
+            t = next(iter(rv)) if len(rv) == 1 else None
+            held = set()
+            if isinstance(t, tuple) and t[0] == "mem":
+                held.add(t)
+                for c, v in s.mem.items():
+                    if cell_base(c) == ("heap", t):
+                        held |= {a for a in v if isinstance(a, tuple) and a[0] == "mem"}
+            ctx.ob("C05.O3s", "strv_concat [success]", "on success the array and the three copies are all reachable from the result "
+                   "(nothing else stays allocated)", len(live) == 4 and set(live) == held, {"allocated": len(live), "reachable": len(held)}, nontrivial=True)
+    ctx.floor("C05.O3s", 3)
     Ff = prog.fn("strv_free")
     frees = [n for n in Ff.calls("free")]
     ctx.ob("C05.O3s", "strv_free", "strv_free frees every element in a loop and then the array", len([n for n in frees if enclosing_loops(Ff, n)]) == 1
